@@ -17,3 +17,7 @@ package control_loop
 //@   props C01 C04
 //@   requires l.pidLoop != nil
 //@   modifies l.pidLoop.integral, l.pidLoop.error, l.pidLoop.lastTime, lastPidOut
+
+//@ func NewDirectControlLoop
+//@   ensures result != nil && fresh(result)
+//@   modifies nothing
